@@ -1,1 +1,118 @@
-//! vcore: shared helpers for the verification harness.
+//! vcore: shared helpers for the verification harness (DESIGN §3).
+//! Case files are ND-JSON (one case per line, produced by TLC or by the python driver); every binary
+//! writes one JSON report: evaluations, distinct, failures (keyed), samples, notes.
+use std::{
+    io::{BufRead, Write},
+    panic::{catch_unwind, AssertUnwindSafe},
+};
+
+use rand::{rngs::StdRng, Rng, SeedableRng};
+use serde::Serialize;
+use serde_json::Value;
+use zksync_consensus_roles::validator;
+
+pub mod log;
+
+/// One failure = one potential VIOLATION (or KNOWN-FINDING if `key` is listed in known_findings.txt).
+#[derive(Serialize, Clone, Debug)]
+pub struct Failure {
+    /// stable key identifying the failing site/input class (matched against known_findings.txt)
+    pub key: String,
+    /// human-readable description
+    pub what: String,
+    /// the case (self-contained replay input)
+    pub case: Value,
+}
+
+#[derive(Serialize, Default, Debug)]
+pub struct Report {
+    pub evaluations: u64,
+    pub distinct: u64,
+    pub failures: Vec<Failure>,
+    pub samples: Vec<Value>,
+    pub notes: Vec<String>,
+    pub counters: std::collections::BTreeMap<String, u64>,
+}
+
+impl Report {
+    pub fn fail(&mut self, key: impl Into<String>, what: impl Into<String>, case: Value) {
+        // keep at most 50 failures per key (a broken tree may fail thousands of cases)
+        let key = key.into();
+        let n = self.failures.iter().filter(|f| f.key == key).count();
+        *self.counters.entry(format!("fail:{key}")).or_default() += 1;
+        if n < 50 {
+            self.failures.push(Failure { key, what: what.into(), case });
+        }
+    }
+    pub fn sample(&mut self, v: Value) {
+        if self.samples.len() < 5 {
+            self.samples.push(v);
+        }
+    }
+    pub fn count(&mut self, k: &str) {
+        *self.counters.entry(k.to_string()).or_default() += 1;
+    }
+    pub fn add(&mut self, k: &str, n: u64) {
+        *self.counters.entry(k.to_string()).or_default() += n;
+    }
+    pub fn write(&self, path: &str) {
+        let mut f = std::fs::File::create(path).expect("create report");
+        serde_json::to_writer_pretty(&mut f, self).unwrap();
+        f.write_all(b"\n").unwrap();
+    }
+}
+
+/// Reads an ND-JSON file.
+pub fn read_cases(path: &str) -> Vec<Value> {
+    let f = std::fs::File::open(path).unwrap_or_else(|e| panic!("open {path}: {e}"));
+    std::io::BufReader::new(f)
+        .lines()
+        .map(|l| l.unwrap())
+        .filter(|l| !l.trim().is_empty())
+        .map(|l| serde_json::from_str(&l).unwrap_or_else(|e| panic!("bad json line {l}: {e}")))
+        .collect()
+}
+
+/// Silence the default panic message (panics of the code under test are data, DESIGN §2).
+pub fn quiet_panics() {
+    std::panic::set_hook(Box::new(|_| {}));
+}
+
+/// Runs `f`, converting a panic into Err(message).
+pub fn catch<T>(f: impl FnOnce() -> T) -> Result<T, String> {
+    catch_unwind(AssertUnwindSafe(f)).map_err(|e| {
+        if let Some(s) = e.downcast_ref::<&str>() {
+            s.to_string()
+        } else if let Some(s) = e.downcast_ref::<String>() {
+            s.clone()
+        } else {
+            "panic (non-string payload)".to_string()
+        }
+    })
+}
+
+pub fn rng(seed: u64) -> StdRng {
+    StdRng::seed_from_u64(seed)
+}
+
+/// `n` deterministic validator secret keys, sorted by public key, so that position i in the returned
+/// vector is index i of any `Schedule` built from (a superset-free) list of these keys.
+pub fn validator_keys(n: usize, seed: u64) -> Vec<validator::SecretKey> {
+    let mut r = rng(seed ^ 0x5eed_0000_0000);
+    let mut ks: Vec<validator::SecretKey> = (0..n).map(|_| r.gen()).collect();
+    ks.sort_by_key(|k| k.public());
+    ks
+}
+
+pub fn u64_of(v: &Value) -> u64 {
+    match v {
+        Value::Number(n) => n.as_u64().unwrap_or_else(|| panic!("not u64: {v}")),
+        Value::String(s) if s == "MAX" => u64::MAX,
+        Value::String(s) => s.parse().unwrap_or_else(|_| panic!("not u64: {v}")),
+        _ => panic!("not u64: {v}"),
+    }
+}
+
+pub fn args() -> Vec<String> {
+    std::env::args().skip(1).collect()
+}
